@@ -45,6 +45,7 @@ RX_TSNEW = re.compile(r"^proc_macro2::TokenStream::new$")
 RX_OPTMAP = re.compile(r"option::Option::<T>::map$")
 RX_THEN = re.compile(r"bool::<impl bool>::then$")
 RX_THENSOME = re.compile(r"bool::<impl bool>::then_some$")
+RX_OPTZIP = re.compile(r"option::Option::<T>::zip$")
 RX_MAPOR = re.compile(r"option::Option::<T>::map_or(_else)?$")
 RX_ITERMAP = re.compile(r"iter::Iterator::map$")
 RX_NEXT = re.compile(r"iter::Iterator::next$")
@@ -663,6 +664,9 @@ class QuoteEval:
                 return mk_some(inner)
         if k == "alt":
             return ("alt", tuple((g, self.proj(frame, x, i, name)) for g, x in t[1]))
+        if k == "some" and t[1][0] == "call" and RX_OPTZIP.search(t[1][1]) and len(t[1][2]) == 2 and i in (0, 1):
+            # the payload of `a.zip(b)` is (payload of a, payload of b): `match (a, b) { (Some(x), Some(y)) => .. }` with another spelling
+            return mk_some(t[1][2][i])
         if k == "call" and frame.depth < self.inline_depth:
             # field of a crate-local helper's result (e.g. a returned tuple): evaluate the helper
             target = t[3] if t[3] in self.facts.F else (t[1] if t[1] in self.facts.F else None)
@@ -1235,6 +1239,8 @@ def decide_parse_semver(facts, fn):
                 return A.V_sym("EMPTY")
             return A.Interp.operand(self, frame, op)
 
+    from .lib_c07 import ITER_SUMMARIES
+    It = table_interp(It)       # a table of (predicate, message) rows searched by find_map is the same chain of tests
     parsed = lambda: A.V_struct("semver::Version", [A.V_sym(n) if n in ("pre", "build") else A.V_opaque(n) for n in names])
     want_ok = ("enum", "Ok", (A.strip(parsed()),))
     rows = []
@@ -1248,10 +1254,11 @@ def decide_parse_semver(facts, fn):
 
                 def is_empty(it, argv, t):
                     return A.V_bool(it.sym_rank(argv[0])[0] == 0)
-                summ = {"syn::LitStr::value": lambda it, argv, t: A.V_opaque("text"),
+                summ = dict(ITER_SUMMARIES)
+                summ.update({"syn::LitStr::value": lambda it, argv, t: A.V_opaque("text"),
                         "core::str::<impl str>::parse": parse, "std::str::<impl str>::parse": parse, "std::str::FromStr::from_str": parse,
                         "semver::Prerelease::is_empty": is_empty, "semver::BuildMetadata::is_empty": is_empty,
-                        "syn::Error::new_spanned": lambda it, argv, t: A.V_opaque("syn::Error"), "syn::Error::new": lambda it, argv, t: A.V_opaque("syn::Error")}
+                        "syn::Error::new_spanned": lambda it, argv, t: A.V_opaque("syn::Error"), "syn::Error::new": lambda it, argv, t: A.V_opaque("syn::Error")})
                 it = It(facts, order, summaries=summ, choices=ch,
                         opaque_callees=[r"^core::fmt::", r"^std::fmt::", r"^alloc::fmt::", r"^std::string::ToString::to_string$", r"^std::convert::(From::from|Into::into)$",
                                         r"^std::borrow::ToOwned::to_owned$", r"^syn::spanned::Spanned::span$", r"^syn::LitStr::span$", r"^std::string::String::"])
@@ -1266,3 +1273,305 @@ def decide_parse_semver(facts, fn):
                     raise A.LeavesFragment("%d nondeterministic choices on one path (expected exactly the one parse)" % len(taken))
                 rows.append(((bool(taken[0]), pre_empty, build_empty), out))
     return rows
+
+
+# --------------------------------------------------------------------------- constant tables in the interpreter
+class _NoAsserts:
+    """View of an engine.Fn in which `assert(cond == expected) -> to` (bounds / overflow checks) is the two-way branch it
+    stands for: `to` when the condition has the expected value, a block ending in `unreachable` (= the panic; the interpreter
+    leaves its fragment there, so a check that can fail is never silently passed) otherwise."""
+
+    def __init__(self, fn):
+        self._fn = fn
+        blocks = list(fn.blocks)
+        panic = None
+        for i, b in enumerate(blocks):
+            t = b["term"]
+            if t["t"] == "assert":
+                if panic is None:
+                    panic = len(blocks)
+                    blocks.append({"bb": panic, "cleanup": False, "st": [], "term": {"t": "unreachable"}})
+                nb = dict(b)
+                nb["term"] = {"t": "switch", "discr": t["cond"], "targets": [[0 if t.get("expected", True) else 1, panic]], "otherwise": t["to"]}
+                blocks[i] = nb
+        self.blocks = blocks
+
+    def __getattr__(self, name):
+        return getattr(self._fn, name)
+
+
+_TABLE_INTERPS = {}
+
+
+def table_interp(base):
+    """Subclass of the absint interpreter class `base` with what a lookup in a `const TABLE: [(A, B); N]` needs: evaluated
+    constants (arrays, tuples, field-less enum values, strings, integers, fn pointers) are concrete values, `table[i]` with a
+    concrete index selects an element, an integer-to-integer cast keeps the number (`*self as usize`: the discriminant), a bounds
+    check is a branch whose failing side is a panic, and a call through a fn pointer taken from a table calls that function.
+    (Generic; candidate for rules/absint.py next to lib_c07.ITER_SUMMARIES.)"""
+    if base in _TABLE_INTERPS:
+        return _TABLE_INTERPS[base]
+    from . import absint as A
+
+    class TableInterp(base):
+        def _closures_of_const(self, path, val):
+            """A closure coerced to `fn` is rendered as the FnOnce::call_once shim; the driver gives its identity as "closure"
+            when it can.  Otherwise the i-th shim of a constant is the constant's i-th closure — assumed only when every shim
+            can be paired that way (as many shims as closures defined in the constant's initialiser)."""
+            shims = []
+
+            def w(v):
+                if isinstance(v, dict):
+                    if "fn" in v and str(v["fn"]).endswith("FnOnce::call_once") and "closure" not in v:
+                        shims.append(id(v))
+                    for k in ("list", "tuple"):
+                        for e in v.get(k, []) if isinstance(v.get(k), list) else []:
+                            w(e)
+            w(val)
+            own = sorted((k for k in self.facts.F if path and k.startswith(path + "::{closure#") and k.endswith("}") and "::" not in k[len(path) + 2:]),
+                         key=lambda k: int(re.search(r"#(\d+)\}$", k).group(1)))
+            return dict(zip(shims, own)) if shims and len(shims) == len(own) else {}
+
+        def const_value(self, val, shim_of=None):
+            shim_of = shim_of or {}
+            if isinstance(val, dict):
+                if "list" in val:
+                    return ("tuple", [self.const_value(e, shim_of) for e in val["list"]], "array")
+                if "tuple" in val:
+                    return A.V_tuple([self.const_value(e, shim_of) for e in val["tuple"]])
+                if "variant" in val and "adt" in val:
+                    return A.V_enum(val["adt"], self.vidx(val["adt"], val["variant"]), val["variant"], [])
+                if "str" in val:
+                    return self.string(val["str"]) if hasattr(self, "string") else A.V_opaque("str:" + val["str"])
+                if "int" in val:
+                    return A.V_int(val["int"])
+                if "fn" in val:
+                    clo = val.get("closure") or shim_of.get(id(val))
+                    if clo:
+                        return ("closure", clo, [])
+                    if str(val["fn"]).endswith("FnOnce::call_once"):
+                        raise A.LeavesFragment("fn pointer made from a closure whose identity is not rendered")
+                    return ("zst", val["fn"])
+            raise A.LeavesFragment("constant element that is not rendered (%r)" % (val,))
+
+        def operand(self, frame, op):
+            val = op.get("val") if op.get("k") == "const" else None
+            if isinstance(val, dict) and ("list" in val or "tuple" in val or "variant" in val):
+                return self.const_value(val, self._closures_of_const(op.get("path"), val))
+            return base.operand(self, frame, op)
+
+        def place(self, frame, pl):
+            if not any(isinstance(e, dict) and "idx" in e for e in pl["p"]):
+                return base.place(self, frame, pl)
+            # a place with an index step: the other steps are ordinary ones (done by the base class on a one-cell frame)
+            cell, path = frame[pl["l"]], ()
+            for e in pl["p"]:
+                if isinstance(e, dict) and "idx" in e:
+                    i = frame[e["idx"]].val
+                    arr = A.read_path(cell, path)
+                    if i is None or i[0] != "int" or arr is None or arr[0] != "tuple" or not 0 <= i[1] < len(arr[1]):
+                        raise A.LeavesFragment("indexing with a non-concrete or out-of-range index")
+                    path = path + (i[1],)
+                else:
+                    here = A.Cell(A.V_ref(cell, path))
+                    cell, path = base.place(self, {0: here}, {"l": 0, "p": ["*", e]})
+            return cell, path
+
+        def rvalue(self, fn, frame, rv):
+            if rv["rv"] == "cast" and rv.get("kind") == "IntToInt":
+                v = self.operand(frame, rv["op"])
+                if v is not None and v[0] == "int":
+                    return v
+            if rv["rv"] == "agg" and rv.get("agg") == "array":
+                return ("tuple", [self.operand(frame, o) for o in rv["ops"]], "array")
+            return base.rvalue(self, fn, frame, rv)
+
+        def call_fn(self, fn, args):
+            if any(b["term"]["t"] == "assert" for b in fn.blocks):
+                fn = _NoAsserts(fn)
+            return base.call_fn(self, fn, args)
+
+        def do_call(self, fn, frame, t, bb):
+            if t.get("callee") is None and t.get("callee_op") is not None:
+                f = self.deref_all(self.operand(frame, t["callee_op"]))
+                if f is not None and (f[0] == "closure" or (f[0] == "zst" and f[1])):
+                    return self.call_closure(f, *[self.operand(frame, a) for a in t["args"]])
+                raise A.LeavesFragment("call through a fn pointer of unknown target at %s bb%d" % (fn.id, bb))
+            return base.do_call(self, fn, frame, t, bb)
+
+    _TABLE_INTERPS[base] = TableInterp
+    return TableInterp
+
+
+def _s_option_zip(interp, argv, t):
+    from . import absint as A
+    a, b = interp.deref_all(argv[0]), interp.deref_all(argv[1])
+    for o in (a, b):
+        if o is None or o[0] != "enum" or o[1] != "std::option::Option":
+            raise A.LeavesFragment("Option::zip of a non-Option")
+    return A.V_some(A.V_tuple([a[4][0], b[4][0]])) if a[3] == "Some" and b[3] == "Some" else A.V_none()
+
+
+def _table_interp_class():
+    from .lib_c07 import StrInterp
+    return table_interp(StrInterp)
+
+
+# --------------------------------------------------------------------------- enum <-> string tables, decided by interpretation
+def decide_enum_string_tables(facts, to_fn, from_fn, adt):
+    """lib_c07.decide_string_tables with TableInterp: decides `to_fn: &Enum -> &str` and `from_fn: &str -> Result<Enum, _>` /
+    Option<Enum> exactly, whether they are matches, if-chains, `find`/`find_map`/`position` over an array literal or lookups in a
+    constant table indexed by discriminant.  Same result shape ({"to", "from", "compared"}); raises absint.LeavesFragment when
+    either function leaves the fragment (the caller then falls back to reading match arms)."""
+    from . import absint as A
+    from .lib_c07 import OTHER, _only_equalities
+    Interp = _table_interp_class()
+    a = facts.adts.get(adt)
+    if not a or any(v.get("fields") for v in a["variants"]):
+        raise A.LeavesFragment("%s is not a field-less enum" % adt)
+    to = {}
+    for i, v in enumerate(a["variants"]):
+        def run(ch, i=i, v=v):
+            it = Interp(facts, ch)
+            r = it.call_fn(to_fn, [A.V_ref(A.Cell(A.V_enum(adt, i, v["name"], [])))])
+            _only_equalities(it)
+            return it, it.string_of(r)
+        outs = set(A.explore(run))
+        if len(outs) != 1 or None in outs:
+            raise A.LeavesFragment("%s of %s is not one constant string" % (to_fn.id, v["name"]))
+        to[v["name"]] = outs.pop()
+    frm, compared = {}, set()
+    todo = sorted(set(to.values())) + [OTHER]
+    while todo:
+        s = todo.pop(0)
+        if s in frm:
+            continue
+
+        def run(ch, s=s):
+            it = Interp(facts, ch)
+            r = it.deref_all(it.call_fn(from_fn, [Interp.string(s)]))
+            _only_equalities(it)
+            seen = set(n[4:] for op, x, y in it.cmp_log for n in (x, y) if n.startswith("str:"))
+            if r is None or r[0] != "enum" or r[1] not in ("std::result::Result", "std::option::Option"):
+                raise A.LeavesFragment("%s does not return a Result / Option" % from_fn.id)
+            if r[3] in ("Err", "None"):
+                return it, ("refused", seen)
+            p = it.deref_all(r[4][0])
+            if p is None or p[0] != "enum" or p[1] != adt:
+                raise A.LeavesFragment("%s returns something else than a %s" % (from_fn.id, adt))
+            return it, (p[3], seen)
+        outs = A.explore(run)
+        frm[s] = set(o for o, seen in outs)
+        for o, seen in outs:
+            for x in seen - {OTHER}:
+                compared.add(x)
+                if x not in frm and x not in todo:
+                    todo.append(x)
+    return {"to": to, "from": frm, "compared": compared}
+
+
+# --------------------------------------------------------------------------- <VersionRange as Parse>::parse, decided by interpretation
+def decide_version_range_parse(facts, fn, range_adt="metadata::VersionRange", spec_adt="metadata::VersionSpecifier"):
+    """Interpret the version-range parser (rules/absint.py) on every input of the range language, the token stream being a
+    concrete cursor over tokens `..` / string literal / identifier: [..], [.. v], [v ..], [v .. w] with v, w a literal (an ordered
+    symbol; `parse::<VersionSpecifier>()` yields Literal(symbol), the literal's own syntax being parse_semver's business) or an
+    identifier, the two literals in every weak order.  Splitting the function, `?` / match / combinators, a tuple pattern or
+    `a.as_literal().zip(b.as_literal()).filter(..)` for the both-literals test are the same function to it.
+    Returns [{"input": text, "tokens": [...], "order": text, "result": stripped value or ("Err",), "consumed": n}].
+    Raises absint.LeavesFragment when the function leaves the fragment (the caller falls back to path facts)."""
+    from . import absint as A
+    sa = facts.adts.get(spec_adt)
+    if not sa or sorted(v["name"] for v in sa["variants"]) != ["Identifier", "Literal"]:
+        raise A.LeavesFragment("%s is not {Literal, Identifier}" % spec_adt)
+    sidx = {v["name"]: i for i, v in enumerate(sa["variants"])}
+    PEEK = {"syn::token::DotDot": "DD", "syn::LitStr": "LIT", "syn::Ident": "ID"}
+
+    class Base(A.Interp):
+        def call_closure(self, clo, *args):
+            v = self.deref_all(clo)
+            if v is not None and v[0] == "zst" and v[1] and v[1] not in self.facts.F and "::" in v[1]:
+                adt, name = v[1].rsplit("::", 1)     # a tuple-variant constructor used as a function: `.map(VersionRange::Until)`
+                a = self.facts.adts.get(adt)
+                if a and a.get("kind") == "enum" and any(x["name"] == name for x in a["variants"]):
+                    return A.V_enum(adt, self.vidx(adt, name), name, list(args))
+            return A.Interp.call_closure(self, clo, *args)
+    It = table_interp(Base)
+
+    X = [("LIT", "a"), ("ID", "x")]
+    Y = [("LIT", "b"), ("ID", "y")]
+    inputs = [[("DD",)]] + [[("DD",), y] for y in Y] + [[x, ("DD",)] for x in X] + [[x, ("DD",), y] for x in X for y in Y]
+    rows = []
+    for toks in inputs:
+        syms = [t[1] for t in toks if t[0] == "LIT"]
+        orders = [{"a": 0, "b": 1}, {"a": 0, "b": 0}, {"a": 1, "b": 0}] if len(syms) == 2 else [{"a": 0, "b": 0}]
+        for order in orders:
+            def run(ch, toks=toks, order=order):
+                st = {"pos": 0}
+                nxt = lambda: toks[st["pos"]][0] if st["pos"] < len(toks) else None
+                err = lambda: A.V_err(A.V_opaque("syn::Error"))
+
+                def s_parse(it, argv, t):
+                    g = " ".join(t.get("gargs") or [])
+                    k = nxt()
+                    if spec_adt in g:
+                        if k == "LIT":
+                            v = A.V_enum(spec_adt, sidx["Literal"], "Literal", [A.V_sym(toks[st["pos"]][1])])
+                        elif k == "ID":
+                            v = A.V_enum(spec_adt, sidx["Identifier"], "Identifier", [A.V_opaque("path:" + toks[st["pos"]][1])])
+                        else:
+                            return err()
+                        st["pos"] += 1
+                        return A.V_ok(v)
+                    if "syn::token::DotDot" in g:
+                        if k != "DD":
+                            return err()
+                        st["pos"] += 1
+                        return A.V_ok(A.V_opaque("dotdot"))
+                    raise A.LeavesFragment("parse::<%s>() is not modelled" % g)
+
+                def s_peek(it, argv, t):
+                    f = it.deref_all(argv[1])
+                    if f is None or f[0] != "zst" or f[1] not in PEEK:
+                        raise A.LeavesFragment("peek of an unmodelled token kind")
+                    return A.V_bool(nxt() == PEEK[f[1]])
+                opq = lambda tag: (lambda it, argv, t: A.V_opaque(tag))
+                summ = {"syn::parse::ParseBuffer::<'a>::parse": s_parse, "syn::parse::ParseBuffer::<'a>::peek": s_peek, "syn::parse::Lookahead1::<'a>::peek": s_peek,
+                        "syn::parse::ParseBuffer::<'a>::lookahead1": opq("lookahead"), "syn::parse::Lookahead1::<'a>::error": opq("syn::Error"),
+                        "syn::parse::ParseBuffer::<'a>::is_empty": lambda it, argv, t: A.V_bool(nxt() is None),
+                        "syn::parse::ParseBuffer::<'a>::error": opq("syn::Error"), "syn::parse::ParseBuffer::<'a>::span": opq("span"),
+                        "syn::Error::new_spanned": opq("syn::Error"), "syn::Error::new": opq("syn::Error"), "quote::ToTokens::to_token_stream": opq("tokens"),
+                        "quote::ToTokens::to_tokens": opq("unit"), "std::option::Option::<T>::zip": _s_option_zip}
+                it = It(facts, order, summaries=summ, choices=ch,
+                        opaque_callees=[r"^core::fmt::", r"^std::fmt::", r"^alloc::fmt::", r"^std::string::ToString::to_string$", r"^std::convert::(From::from|Into::into)$",
+                                        r"^std::borrow::ToOwned::to_owned$", r"^syn::spanned::Spanned::span$", r"^std::string::String::", r"^proc_macro2::Span::"])
+                r = A.strip(it.call_fn(fn, [A.V_ref(A.Cell(A.V_opaque("ParseBuffer")))]))
+                bad = [c for c in it.cmp_log if set(c[1:]) - {"a", "b"}]
+                if bad:
+                    raise A.LeavesFragment("something else than the two literals is compared: %s" % (bad[:2],))
+                if it.taken:
+                    raise A.LeavesFragment("the parser branches on something that is not determined by its input")
+                if r is None or r[0] != "enum" or r[1] not in ("Ok", "Err"):
+                    raise A.LeavesFragment("the parser does not return a Result")
+                return it, (("Err",) if r[1] == "Err" else r[2][0], st["pos"])
+            outs = A.explore(run)
+            res, pos = outs[0]
+            text = " ".join(".." if t[0] == "DD" else ('"%s"' % t[1] if t[0] == "LIT" else t[1]) for t in toks)
+            rows.append({"input": text, "tokens": toks, "order": A.order_str({s: order[s] for s in syms}) if len(syms) == 2 else "-", "ranks": order,
+                         "result": res, "consumed": pos})
+    return rows
+
+
+def expected_version_range(row):
+    """What the range language prescribes for one interpreted input: the stripped Ok payload, or ("Err",)."""
+    toks, order = row["tokens"], row["ranks"]
+    val = lambda t: ("enum", "Literal", (("sym", t[1]),)) if t[0] == "LIT" else ("enum", "Identifier", (("opaque", "path:" + t[1]),))
+    kinds = [t[0] for t in toks]
+    if kinds == ["DD"]:
+        return ("enum", "All", ())
+    if len(toks) == 2 and kinds[0] == "DD":
+        return ("enum", "Until", (val(toks[1]),))
+    if len(toks) == 2 and kinds[1] == "DD":
+        return ("enum", "From", (val(toks[0]),))
+    if toks[0][0] == "LIT" and toks[2][0] == "LIT" and order[toks[2][1]] < order[toks[0][1]]:
+        return ("Err",)
+    return ("enum", "FromUntil", (val(toks[0]), val(toks[2])))
